@@ -45,7 +45,7 @@ MCInit == InitWith(Cfg0) /\ hist = <<>> /\ stage = 0
 
 Next1(m) == /\ ClientSend(m)
             /\ hist' = Append(hist, [k |-> "send", m |-> m])
-            /\ stage' = stage + 1
+            /\ (stage < 40 => stage' = stage + 1)
 
 MCSend ==
     /\ Quiet /\ phase # "closed"
@@ -55,7 +55,17 @@ MCSend ==
          [] stage = 3 -> \E b \in (IF stmts[""].oids = <<>> THEN BindsOK({"null", "empty", "short", "nul"})
                                    ELSE BindsOK({"null", "short"})) :
                             /\ Next1(b)
-         [] stage = 4 -> Next1([t |-> "D", kind |-> "P", name |-> ""])
+         [] stage = 4 -> \* optionally a second portal on the same statement, bound AFTER the first one with
+                         \* other result formats: both stay alive, each keeps what its own Bind said
+                         \/ Next1([t |-> "D", kind |-> "P", name |-> ""])
+                         \/ \E rf \in {<<>>, <<1>>, <<1, 0>>} :
+                               /\ ClientSend([t |-> "B", portal |-> "o", stmt |-> "", pfmt |-> <<>>, params |-> <<>>, rfmt |-> rf])
+                               /\ hist' = Append(hist, [k |-> "send", m |-> [t |-> "B", portal |-> "o", stmt |-> "", pfmt |-> <<>>, params |-> <<>>, rfmt |-> rf]])
+                               /\ stage' = 40
+         [] stage = 40 -> Next1([t |-> "D", kind |-> "P", name |-> ""]) /\ stage' = 41
+         [] stage = 41 -> Next1([t |-> "E", portal |-> "", max |-> 0]) /\ stage' = 42
+         [] stage = 42 -> Next1([t |-> "D", kind |-> "P", name |-> "o"]) /\ stage' = 43
+         [] stage = 43 -> Next1([t |-> "E", portal |-> "o", max |-> 0]) /\ stage' = 6
          [] stage = 5 -> Next1([t |-> "E", portal |-> "", max |-> 0])
          [] stage = 6 -> Next1([t |-> "S"])
          [] OTHER -> FALSE
@@ -75,8 +85,8 @@ Cover == (hist' # hist /\ stage' = 7) => ExportRecord([cfg |-> cfg, steps |-> hi
 ParamsReachHandler ==
     \A i \in DOMAIN emit :
         (emit[i].k = "cb" /\ emit[i].c.name = "stmt.start" /\ h.on /\ h.mode = "ext") =>
-            /\ Len(emit[i].c.params) = Len(portals[""].params)
-            /\ emit[i].c.params = portals[""].params
+            /\ emit[i].c.params = h.params
+            /\ \E p \in DOMAIN portals : portals[p].params = h.params /\ portals[p].rfmt = h.rfmt
 
 \* every parameter is tagged by the protocol rule
 TagRule ==
